@@ -142,7 +142,7 @@ UNITS = [
 VERIFIED_CALLEES = ("check_required",)
 LEVEL = "other"
 TECHNIQUE = "contract-based deductive verification of validate's nested check functions (VCs from the real AST, recursion by contract) + bounded run-time contract checking: one foreign key inserted / one required key removed at every tree position"
-LEVEL_TEXT = "under construction"
+LEVEL_TEXT = "Proved on validate's nested functions: check_required returns normally only if every required key is present and not None and recurses into the selected subcommand's own section with the prefixed key; check_values returns normally only if every key has an action, is a branch of declared keys or lies under a parent action checked in the same pass, else NSKeyError naming the key, and type-checks every key with an action; leftover argv is never accepted (C04 unit). Bounded only: one foreign key inserted / one required key removed at every position of 9 parser shapes x 12 channels."
 LEVEL_NOTE = "under construction"
 EXPLANATION = "under construction"
 ASSUMPTIONS = []
